@@ -122,6 +122,8 @@ structure RenderReq where
   existsExc : List String := []
   excParents : List (String × List String) := []
   htmlBooleans : List Str := []
+  /-- `content_type == 'text/xml'` as decided by `write` (none: decided by the `<?xml` prefix alone) -/
+  xmlMode : Option Bool := none
 
 structure ErrorOut where
   text : Str
@@ -157,7 +159,7 @@ def compileCheck (tc : TCfg) (strict : Bool) (fuel : Nat) (macros : List (Str ×
 
 /-- `PageTemplate(src, …)(**vars)` -/
 def render (r : RenderReq) : Outcome :=
-  let xml := isXmlDoc r.src && !r.textMode
+  let xml := r.xmlMode.getD (isXmlDoc r.src) && !r.textMode
   let body := if xml then r.src else normalizeNewlines r.src
   let booleans : List Str := match r.booleanAttrs with
     | some b => b
